@@ -32,6 +32,11 @@ def workloads(tier):
         wl("drop-u|del-u", [("A", ["drop table u"]), ("B", ["delete from u where a = 1"])], ["t", "u"]),
         wl("create-y|drop-u", [("A", ["create table y(a int)", "insert into y values (5)"]), ("B", ["drop table u"])], ["t", "u", "y"]),
         wl("ins-u;sel-u|del-u", [("A", ["insert into u values (2)", "select count(*) from u"]), ("B", ["delete from u where a = 1"])], ["t", "u"]),
+        # views and indexes take ids from the same counter as tables but are not logged: a concurrent CREATE TABLE must still
+        # be replayable (the manifest records the table id)
+        wl("create-view|create-y;ins-y", [("A", ["create view vv(x) as select a from t"]), ("B", ["create table y(a int)", "insert into y values (5)"])], ["t", "u", "y"]),
+        wl("create-index|create-y;ins-y", [("A", ["create index ix on t(a)"]), ("B", ["create table y(a int)", "insert into y values (5)"])], ["t", "u", "y"]),
+        wl("create-y;drop-y|create-y", [("A", ["create table y(a int)", "drop table y"]), ("B", ["create table y(a int)"])], ["t", "u", "y"]),
     ]
     if tier == "thorough":
         ws += [
@@ -59,6 +64,8 @@ def apply(state, sql):
             return st, ("err",)
         del st[m.group(1)]
         return st, ("ok", None)
+    if re.match(r"create (view|index) ", sql):
+        return st, ("ok", None)          # no effect on the tables the model tracks
     m = re.match(r"insert into (\w+) values \((\d+)\)", sql)
     if m:
         if m.group(1) not in st:
